@@ -43,6 +43,7 @@ class FactoriesConfiguratorMixin:
             'root factory',
         )
         intr['factory'] = factory
+        intr['route_name'] = None  # the default root factory
         self.action(IRootFactory, register, introspectables=(intr,))
 
     _set_root_factory = set_root_factory  # bw compat
